@@ -86,7 +86,7 @@ def run(tier, seed):
             rep.viol_n['c19:pytz:transition-not-bracketed'] = rep.viol_n.get('c19:pytz:transition-not-bracketed', 0) + nviol - len(viol)
     cov['zones_pytz'] = len(zsel)
     # dateutil (slower): fewer zones / ranges
-    dz = zsel if thorough else sorted(set(zones[seed % 16::16]) | set(special))
+    dz = sorted(set(zsel[seed % 4::4]) | set(special)) if thorough else sorted(set(zones[seed % 16::16]) | set(special))
     drng = ranges_for('quick') if thorough else [(2000, 2038), (2000, 2010), (2003, 2010), (2008, 2010), (2009, 2038)]
     for name, viol, nviol, st in refdata.run_pool(refdata._check_zone_dateutil, [(z, [r], 22, True) for z in dz for r in drng]):
         cov['generator_runs'] += st['runs']; cov['items_checked'] += st['items']; cov['transitions_required'] += st['transitions_required']
@@ -107,7 +107,7 @@ def run(tier, seed):
     rep.assumptions += ['completeness oracle = the library\'s own transition table (pytz: _utc_transition_times/_transition_info; dateutil: tzfile _trans_list_utc/_trans_idx), bounded by the installed versions (pytz %s)' % pytz.__version__,
                         'a transition with another transition closer than the sampling interval cannot be found by interval sampling by construction; such transitions are counted as not claimed',
                         'ranges: %s; sampling intervals 22 h (default) plus slices at 12 h and 23 h' % ('all 741 (start, until) pairs within 2000..2038' if thorough else 'all until-years with start=2000 and all start-years with until=2038'),
-                        'quick tier: every 8th pytz zone (seed-rotated) + 6 zones with year-end / unusual transitions (these with all 741 ranges); every 16th zone for dateutil',
+                        'dateutil (much slower): every 4th zone x both axes in the thorough tier; quick tier: every 8th pytz zone (seed-rotated) + 6 zones with year-end / unusual transitions (these with all 741 ranges); every 16th zone for dateutil',
                         'rendering is lossless for minute-aligned offsets only (all of 2000..2037); other items are counted']
     return rep.finish(exhaustive=thorough, extra={'evaluations': cov['items_checked'] + cov['rendered_items'], 'distinct_nontrivial': cov['transitions_required'],
         'samples': [{'zone': 'Asia/Dhaka', 'range': [2003, 2010], 'transition_utc': '2009-12-31T17:00:00', 'expected_items': ['A @ t-60s', 'B @ t']}],
